@@ -20,12 +20,14 @@ import common
 from common import enc, dec, err_kind
 
 ID = "C12"
-RULE = ("filters ZFilter/LinearFilter(b, a) with small int / dyadic / Fraction / Gaussian-int coefficients "
-        "(orders 0..6 quick, ..10 thorough, incl. zero and leading-zero coefficients), probed at rational "
-        "points of the unit circle (omega = atan2 float) incl. 0, pi, +-pi/2, through every frequency "
-        "container kind; cascade/parallel banks of 1..4 filters; dft of int/Fraction/complex blocks; FIR "
-        "runs of impulses, int signals and complex exponentials.  Non-trivial = the impl returned at least "
-        "one finite non-zero value (or the predicted nan / exception); distinct = distinct JSON case")
+RULE = ("filters ZFilter/LinearFilter(b, a) and z-expressions with small int / dyadic / Fraction / Gaussian-int "
+        "coefficients (orders 0..6 quick, ..10 thorough, incl. zero, leading-zero and gap coefficients), filters given "
+        "as {delay: coeff} dicts (sparse, unordered, non-causal), probed at rational points of the unit circle "
+        "(omega = atan2 float, optionally wrapped to [0, 2pi)) incl. 0, pi, +-pi/2, through every frequency container "
+        "kind; flat cascade/parallel banks of 0..4 filters and nested bank trees (depth <= 2 quick, 3 thorough, raw "
+        "list members, both constructor forms); dft of int/Fraction/complex blocks; FIR runs of impulses, int signals "
+        "and complex exponentials; an exhaustive grid of all b, a in {-1,0,1,2}^(<=2).  Non-trivial = the impl returned "
+        "at least one finite non-zero value, a predicted nan or a predicted exception; distinct = distinct JSON case")
 TRUSTED = [
     "hand-written Lean model ALV/Model/C12.lean of LinearFilter.__init__/freq_response, Poly.__call__ (number argument), "
     "Cascade/ParallelFilter.freq_response, dft and the FIR instance of the generated filter loop (modelled, not verified)",
@@ -40,6 +42,20 @@ ASSUMPTIONS = [
     "frequency containers: scalar, list, tuple, deque, set, frozenset, Stream (finite and endless), generator, map, range; "
     "list_iterator / dict / str are not supported container kinds of elementwise (TypeError today)",
 ]
+
+MANIFEST = {
+    "text": ("Lean 4 theorems (30, no sorry/axiom) about a hand-written executable model of freq_response "
+             "(LinearFilter.__init__ normalisation, Poly.__call__ paths, nan test), Cascade/Parallel banks to any "
+             "nesting depth, dft and the FIR instance of the generated filter loop: transfer function in every field "
+             "and over C at w = exp(-j omega), cascade = product, parallel = sum, FIR loop = convolution, "
+             "DFT(impulse response) = freq_response, steady state / transient of complex exponentials, dft sum / "
+             "linearity / DC mean, and the cast Q[i] -> C of the executable evaluator; tied to /repo by a differential "
+             "correspondence in the float regime (exact Gaussian-rational value vs impl float, a-priori rounding bound)"),
+    "note": ("Trusted: Lean kernel, axioms propext/Classical.choice/Quot.sound, the Python correspondence harness "
+             "(incl. the omega <-> w mapping by atan2 and the tolerance rule 1e-9*(1+|expected|) with a per-case "
+             "a-priori rounding bound <= 2e-10); IEEE-754 / cmath rounding is not modelled; the model is hand written "
+             "and validated against the code differentially, not extracted from it."),
+}
 
 TOL = 1e-9
 BOUND = 2e-10
